@@ -23,13 +23,13 @@ class Driver:
     def __init__(self, rng, locs, versions, profile):
         self.r = rng
         self.locs, self.versions = locs, versions
-        self.cur = {l: versions[0] for l in locs}
+        self.cur = {l: f"{l}{versions[0]}" for l in locs}
         self.dmg = {l: {} for l in locs}
         self.cache_ok = True
         self.live = {}  # slot -> set of images loaded since the tree was put there
         self.prev_open = None
         self.prev_load = None
-        self.w = dict(open=30, load=20, mutate=8, copy=4, drop=3, cli=8, redeliver=5, damage=6, restore=4, delete=4, tear=5, cachedir=3, purge=3, block=2)
+        self.w = dict(open=30, load=20, mutate=8, copy=4, drop=3, cli=8, redeliver=5, damage=6, restore=4, delete=4, tear=5, cachedir=3, purge=3, block=2, copyto=3)
         self.w.update(profile or {})
 
     def next_op(self):
@@ -87,7 +87,13 @@ class Driver:
         if len(self.versions) < 2:
             return None
         l = self.r.choice(self.locs)
-        return {"op": "redeliver", "loc": l, "ver": self.r.choice([v for v in self.versions if v != self.cur[l]])}
+        return {"op": "redeliver", "loc": l, "ver": self.r.choice([v for v in self.versions if f"{l}{v}" != self.cur[l]])}
+
+    def _copyto(self):
+        if len(self.locs) < 2 or len(self.versions) < 2:
+            return None
+        src = self.r.choice(self.locs)
+        return {"op": "copyto", "loc": src, "dst": [l for l in self.locs if l != src][0]}
 
     def _damage(self):
         r = self.r
@@ -140,8 +146,11 @@ class Driver:
         elif k == "drop":
             self.live.pop(op["slot"], None)
         elif k == "redeliver":
-            self.cur[op["loc"]] = op["ver"]
+            self.cur[op["loc"]] = f"{op['loc']}{op['ver']}"
             self.dmg[op["loc"]] = {}
+        elif k == "copyto":
+            self.cur[op["dst"]] = self.cur[op["loc"]]
+            self.dmg[op["dst"]] = dict(self.dmg[op["loc"]])
         elif k == "damage":
             self.dmg[op["loc"]][op["file"]] = op["how"]
         elif k == "restore":
@@ -170,6 +179,8 @@ def run_trace(task):
             if op["op"] == "open":
                 l = op["loc"]
                 last.update(outcome="tree", judged=True, ver=s.cur[l], cver={m: s.cur[l] for m in ("a", "b")}, src={m: "parse" for m in ("a", "b")}, written=[])
+            elif op["op"] == "redeliver":
+                last["ver"] = f"{op['loc']}{op['ver']}"
             elif op["op"] == "load":
                 last.update(judged=True, outcome="equal")
             elif op["op"] == "cli":
